@@ -156,6 +156,12 @@ func genCallbackTree(r *rand.Rand, withFindings bool) []*Ins {
 				out = append(out, &Ins{Tok: tRecover})
 			}
 		}
+		if inCb && withFindings && r.Intn(3) == 0 {
+			// a chain with a recovered record leaves the callback (known finding
+			// recovered-panic-stays-in-chain inside the VM of the callback)
+			out = append(out, &Ins{Tok: tDeferFn, Body: []*Ins{{Tok: tPanic, N: val()}}},
+				&Ins{Tok: tDeferFn, Body: []*Ins{{Tok: tRecover}}}, &Ins{Tok: tPanic, N: val()})
+		}
 		return out
 	}
 	return body(0, false)
